@@ -3,7 +3,7 @@
    the caller's environment, a write to exec.Cmd.Env or the hashed name=value loops changes Gen/C10Env.v and breaks one
    of the lemmas below. *)
 From Coq Require Import String.
-From PlzV Require Import Base.Harness Model.C10 Proof.C10.
+From PlzV Require Import Base.Harness Model.C10 Proof.C10 Proof.C10_R2.
 From PlzV Require Gen.C10Env.
 
 (* 1. Every read of the caller's environment on the path from a target to its command's environment and hashes.
@@ -139,3 +139,117 @@ Fixpoint interp_env_prog (prog : list (string * string * string * list string)) 
 Lemma exec_env_prog_ok : forall mode uid net mount caller e,
   interp_env_prog Gen.C10Env.exec_env_prog mode uid net mount caller e [] = Some (cmd_env mode uid net mount e).
 Proof. intros mode uid net mount caller e. destruct mode; reflexivity. Qed.
+
+(* ==== round-2 follow-up: statements TRANSLATED from the source (Gen/C10Env.v), interpreted here ==== *)
+
+(* 6. How the two pass loops of TargetEnvironment and the pass_env loop of ruleHash read the caller's variable.
+      gotrans classifies each loop body: "getenv" (x = os.Getenv(k)), "lookupenv" (if x, ok := os.LookupEnv(k); ok {...}),
+      anything else is "other:..." and has no interpretation (None: every lemma below fails). *)
+Definition parse_mode (m : string) : option read_mode :=
+  if String.eqb m "getenv" then Some RGetenv else if String.eqb m "lookupenv" then Some RLookup else None.
+
+Definition gen_modes : option (read_mode * read_mode * read_mode) :=
+  match Gen.C10Env.pass_read_modes with
+  | [(f1, l1, m1); (f2, l2, m2); (f3, l3, m3)] =>
+      if (String.eqb f1 "TargetEnvironment" && String.eqb l1 "*target.PassUnsafeEnv" &&
+          String.eqb f2 "TargetEnvironment" && String.eqb l2 "*target.PassEnv" &&
+          String.eqb f3 "ruleHash" && String.eqb l3 "*target.PassEnv")%bool
+      then match parse_mode m1, parse_mode m2, parse_mode m3 with
+           | Some a, Some b, Some c => Some (a, b, c)
+           | _, _, _ => None
+           end
+      else None
+  | _ => None
+  end.
+
+(* the source reads all three with os.Getenv: the model's target_env / pass_env_stream are that instance *)
+Lemma gen_modes_ok : gen_modes = Some (RGetenv, RGetenv, RGetenv).
+Proof. reflexivity. Qed.
+
+(* With the read modes THE SOURCE HAS: the environment side is not finer than the hash side, the model is the
+   corresponding instance, and callers the hash cannot tell apart get the same TargetEnvironment.  A source in which
+   TargetEnvironment uses os.LookupEnv while ruleHash keeps os.Getenv gives gen_modes = Some (RLookup, RLookup, RGetenv):
+   this theorem is then FALSE (Proof.C10_R2.lookup_vs_getenv_refuted) and its proof no longer checks. *)
+Theorem gen_env_function_of_hashed : forall mu me mh,
+  gen_modes = Some (mu, me, mh) ->
+  mode_le me mh = true
+  /\ (forall cfg t c, target_env cfg t c = target_env_m mu me cfg t c)
+  /\ (forall cfg t c1 c2,
+        agree c1 c2 (c_pass_unsafe cfg ++ c_pass_env cfg) ->
+        (forall n, In n (opt_list (t_pass_unsafe t)) -> read_view mu c1 n = read_view mu c2 n) ->
+        hashed_view mh t c1 = hashed_view mh t c2 ->
+        target_env_m mu me cfg t c1 = target_env_m mu me cfg t c2).
+Proof.
+  intros mu me mh H. rewrite gen_modes_ok in H. injection H as <- <- <-.
+  split; [reflexivity|]. split.
+  - intros; symmetry; apply target_env_m_unchanged.
+  - intros cfg t c1 c2. now apply target_env_m_hashed.
+Qed.
+
+(* 7. needsBuilding: the sequence of reasons to rebuild, and what Build() does when the action fails. *)
+Definition parse_check (c : string) : option nb_check :=
+  if String.eqb c "metadata" then Some NbMetadata else if String.eqb c "config" then Some NbConfig
+  else if String.eqb c "rule" then Some NbRule else if String.eqb c "source" then Some NbSource
+  else if String.eqb c "secret" then Some NbSecret else if String.eqb c "outputs" then Some NbOutputs
+  else if String.eqb c "force" then Some NbForce else None.
+
+Fixpoint parse_checks (l : list string) : option (list nb_check) :=
+  match l with
+  | [] => Some []
+  | c :: r => match parse_check c, parse_checks r with Some a, Some b => Some (a :: b) | _, _ => None end
+  end.
+
+Definition gen_checks : option (list nb_check) := parse_checks Gen.C10Env.needs_building_checks.
+Definition gen_removes : bool := existsb (String.eqb "RemoveOutputs") Gen.C10Env.build_failure_calls.
+
+Lemma gen_checks_ok : gen_checks = Some nb_checks_unchanged.
+Proof. reflexivity. Qed.
+
+Lemma build_failure_calls_ok :
+  Gen.C10Env.build_failure_calls = ["state.LogBuildError"; "RemoveOutputs"; "target.SetState"; "target.FinishBuild"; "return"]%string.
+Proof. reflexivity. Qed.
+
+(* With the checks THE SOURCE HAS (whatever Build() does on failure, whichever hash store): after any history a
+   successful invocation leaves the outputs of the current hashed bytes, and it re-ran the action exactly when the
+   outputs on disk were not those.  A source without the existence check gives a list that does not cover:
+   the statement is then false for side files (Proof.C10_R2.no_outputs_check_refuted) and this proof fails. *)
+Theorem gen_history_fresh : forall checks,
+  gen_checks = Some checks ->
+  forall xattrs h key ok st' ran,
+    let st := fst (run_history checks gen_removes xattrs o_init h) in
+    build_once checks gen_removes xattrs key ok st = (st', (ran, true)) ->
+    o_out st' = Some key /\ ran = negb (okey_eqb (o_out st) (Some key)).
+Proof.
+  intros checks H. rewrite gen_checks_ok in H. injection H as <-.
+  intros xattrs h key ok st' ran. apply history_fresh. reflexivity.
+Qed.
+
+(* 8. The built-in remote_file action: which mapping expands the URL and the header values, and where env comes from. *)
+Definition pair_eqb (a b : string * string) : bool := (String.eqb (fst a) (fst b) && String.eqb (snd a) (snd b))%bool.
+Definition rf_expands (url_map hdr_map : string) : list (string * string) :=
+  [("env", "core.BuildEnvironment"); ("url", url_map); ("header:v", hdr_map); ("header:set", "v")]%string.
+
+Definition gen_hdr_mode : option hdr_mode :=
+  if list_eqb pair_eqb Gen.C10Env.remote_file_expands (rf_expands "env.ReplaceEnvironment" "env.ReplaceEnvironment") then Some HTargetEnv
+  else if list_eqb pair_eqb Gen.C10Env.remote_file_expands (rf_expands "env.ReplaceEnvironment" "os.Getenv") then Some HShellEnv
+  else None.
+
+Lemma gen_hdr_mode_ok : gen_hdr_mode = Some HTargetEnv.
+Proof. reflexivity. Qed.
+
+(* the only direct reads of the caller's environment in fetchOneRemoteFile / setHeaders: ~ in the PATHS of
+   secret_header / password_file files (fs.ExpandHomePath reads HOME) - the files' contents are outside this model *)
+Lemma remote_file_reads_ok :
+  Gen.C10Env.remote_file_reads = [("setHeaders", "fs.ExpandHomePath(v)"); ("setHeaders", "fs.ExpandHomePath(value)")]%string.
+Proof. reflexivity. Qed.
+
+(* With the mapping THE SOURCE USES, a header value is determined by configuration, target and the listed variables.
+   os.ExpandEnv gives gen_hdr_mode = Some HShellEnv, for which the statement is false (header_shell_refuted). *)
+Theorem gen_header_determined : forall m,
+  gen_hdr_mode = Some m ->
+  forall cfg t tmp c1 c2 e1 e2 raw,
+    NoDup (map fst (t_env t)) -> Permutation.Permutation e1 (t_env t) -> Permutation.Permutation e2 (t_env t) -> agree c1 c2 (reads cfg t) ->
+    header_value m cfg (with_env t e1) tmp c1 raw = header_value m cfg (with_env t e2) tmp c2 raw.
+Proof.
+  intros m H. rewrite gen_hdr_mode_ok in H. injection H as <-. intros. now apply header_determined.
+Qed.
